@@ -9,6 +9,24 @@ from props import tracer_common as tc
 
 COQ_IMPORT = "From BS Require Import Core.Show Core.Base Model.Tracer Model.TracerHeap.\n"
 
+SEL_BODY = """
+    g = grid.from_positions([0.0, 1.0], [0.0, 2.0])
+    action.set_loc(g)
+    action.turn_on(sx, sy)
+    action.move(grid.shift(g, 1.0, 0.5))
+    action.turn_off(sy, sx)
+"""
+LONG_BODY = """
+    g = grid.from_positions([0.0, 1.0], [0.0])
+    action.set_loc(g)
+    action.turn_on([0, 1], [0])
+    i = 0
+    for i in range(n):
+        action.move(grid.shift(g, 1.0, 0.5))
+        action.move(g)
+    action.turn_off([0, 1], [0])
+"""
+
 FIXED = [
     ("ok-two-segments", "(n: int)", """
     g = grid.from_positions([0.0, 1.0], [0.0])
@@ -49,10 +67,15 @@ FIXED = [
 ]
 
 
+_METHODS = {}      # one Method per source text: calls of one kernel with different arguments share its statements
+
+
 class Item:
     def __init__(self, name, src, args, S):
         self.name, self.src, self.args = name, src, args
-        self.method = kernels.define(src)["main"]
+        if src not in _METHODS:
+            _METHODS[src] = kernels.define(src)["main"]
+        self.method = _METHODS[src]
         nat = tc.run_native(src, "main", args, S)
         self.native_failed = nat[0] == "err"
         self.ops = nat[1]
@@ -132,6 +155,19 @@ def run(ctx):
         for hist in itertools.product(range(len(fixed)), repeat=n):
             cases.append(run_history(ctx, fixed, list(hist), S, "fixed"))
     ctx.count("exhaustive_histories", len(cases))
+    # one kernel whose selectors are run-time arguments, called with every mix of forms (shared statements)
+    from kirin.dialects import ilist
+    forms = [slice(None), ilist.IList([0, 1]), slice(0, 1), ilist.IList([1])]
+    sel_items = [Item(f"sel-{i}-{j}", "@tweezer\ndef main(sx, sy):" + SEL_BODY, (a, b), S) for i, a in enumerate(forms) for j, b in enumerate(forms)]
+    sel_items = [it for it in sel_items if it.usable]
+    for h in range(ctx.pick(40, 400)):
+        hist = [ctx.rng.randrange(len(sel_items)) for _ in range(ctx.rng.randint(2, 6))]
+        cases.append(run_history(ctx, sel_items, hist, S, "selector-forms"))
+    # a long history: many interpreted statements in total on one instance (any per-instance budget or accumulation shows up here)
+    long_item = Item("long-loop", "@tweezer\ndef main(n: int):" + LONG_BODY, (ctx.pick(9000, 30000),), S)
+    short_item = fixed[0]
+    run_history(ctx, [long_item, short_item], [0, 0, 0, 0, 1, 0, 1], S, "long")
+    ctx.count("long_history_total_loop_iterations", 5 * long_item.args[0])
     ctx.exhaustive = False
     # random histories over generated kernels
     pool = list(fixed)
